@@ -386,7 +386,7 @@ func TestC08StateMachine(t *testing.T) {
 			"invalidProposalCommand": func(t *rapid.T) {
 				// operator asks for something the protocol must refuse
 				n := w.nodes[nodeGen.Draw(t, "node")]
-				kind := rapid.IntRange(0, 5).Draw(t, "kind")
+				kind := rapid.IntRange(0, 6).Draw(t, "kind")
 				snapshot()
 				var err error
 				var what string
@@ -434,6 +434,31 @@ func TestC08StateMachine(t *testing.T) {
 						mem := w.memberNodes()
 						lst := append(append([]*Node{}, mem[:len(mem)-1]...), mem[len(mem)-2])
 						err = mem[0].Reshare(len(mem)/2+1, 1, timeoutIn(), nil, partsOf(lst), nil)
+						n = mem[0]
+					}
+				case 6:
+					// fewer holders of the current shares stay than the current threshold: the secret could not be handed over,
+					// however many joiners pad the list
+					what = "remainers-below-current-threshold"
+					mem := w.memberNodes()
+					var outs []*Node
+					for _, o := range w.nodes {
+						if !w.members[o.Addr] {
+							outs = append(outs, o)
+						}
+					}
+					prevThr := 0
+					if w.completedEpoch > 0 {
+						if f, _ := mem[0].Finished(); f != nil {
+							prevThr = int(f.Threshold)
+						}
+					}
+					if w.completedEpoch == 0 || prevThr < 2 || len(outs) < 2 {
+						what = "skip"
+					} else {
+						stay := mem[:prevThr-1]
+						total := len(stay) + len(outs)
+						err = mem[0].Reshare(total/2+1, 1, timeoutIn(), partsOf(outs), partsOf(stay), partsOf(mem[prevThr-1:]))
 						n = mem[0]
 					}
 				case 4:
